@@ -134,8 +134,16 @@ EmitF32 == \A k \in 1..Len(F32U) : \A side \in {"a", "b"} :
   PrintT(ToJson([id |-> "f32-" \o ToString(k) \o "-" \o side, kind |-> "render", tm |-> "TraceC09",
                  a |-> F32U[k], b |-> F32U[k], prog |-> Prog, env |-> << <<A, F32U[k]>>, <<B, F32U[k]>> >>, repr |-> (side :> "float32")]))
 
+\* data nested many levels deep, the innermost value an integer here and the equal float there: equal all the same
+RECURSIVE Deep(_, _)
+Deep(d, leaf) == IF d = 0 THEN leaf ELSE Arr(<<Deep(d - 1, leaf)>>)
+EmitDeep == \A d \in {33, 70} : \A k \in 1..2 :
+  LET da == Deep(d, IntV(1))
+      db == IF k = 1 THEN Deep(d, Flt(1, 1)) ELSE Deep(d, IntV(2))
+  IN  PrintT(ToJson([id |-> "deep-" \o ToString(d) \o "-" \o ToString(k), kind |-> "render", tm |-> "TraceC09",
+                     a |-> da, b |-> db, prog |-> Prog, env |-> << <<A, da>>, <<B, db>> >>]))
 EmitCase ==
-  /\ (i = 1 /\ j = 1) => EmitF32
+  /\ (i = 1 /\ j = 1) => EmitF32 /\ EmitDeep
   /\ PrintT(ToJson([id |-> "prop-" \o ToString(i) \o "-" \o ToString(j), kind |-> "render", tm |-> "TraceC09",
                     a |-> a, b |-> b, prog |-> PropProg, env |-> << <<MM, MapV(<< <<XX, a>>, <<YY, b>> >>)>> >>,
                     repr |-> PropHint("m/x", a, Pick(a, i + j + 2)) @@ PropHint("m/y", b, Pick(b, i + 2 * j + 1))]))
